@@ -662,7 +662,7 @@ pub fn pinned() -> Vec<(usize, u64)> {
 }
 
 pub struct Ctx {
-    pub pins: Vec<(usize, u64)>,
+    pub pins: Vec<(usize, [u8; 32])>,
     pub n512: u64,
     pub n1024: u64,
 }
@@ -672,15 +672,23 @@ pub fn context(tier: Tier, _seed: u64) -> Result<Ctx, String> {
         Tier::Quick => (640u64, 112u64),
         Tier::Thorough => (24000u64, 4000u64),
     };
-    Ok(Ctx { pins: pinned(), n512, n1024 })
+    Ok(Ctx { pins: pinned_seeds(), n512, n1024 })
+}
+
+/// the pinned counter seeds plus the key seeds selected with the reference model of key generation's
+/// candidate stream (corpus/C01/selected-seeds.txt): (variant, seed)
+pub fn pinned_seeds() -> Vec<(usize, [u8; 32])> {
+    let mut v: Vec<(usize, [u8; 32])> = pinned().into_iter().map(|(n, c)| (n, counter_seed(c))).collect();
+    v.extend(crate::props::c01::selected_seeds_corpus().into_iter().map(|(n, s, _)| (n, s)));
+    v
 }
 
 fn dispatch(ctx: &Ctx, seed: u64, run: u64) -> RunOutcome {
     let npin = ctx.pins.len() as u64;
     let mut rng = Prng::new(report::run_seed(seed, PROP, run));
     let plan = if run < npin {
-        let (n, c) = ctx.pins[run as usize];
-        Plan::draw(&mut rng, n, counter_seed(c))
+        let (n, ks) = ctx.pins[run as usize];
+        Plan::draw(&mut rng, n, ks)
     } else {
         // fresh seeds; the expensive 1024 life-cycles are scheduled first
         let k = run - npin;
